@@ -150,7 +150,9 @@ def prop_b(case):
             if key == "amu2LB":
                 # rounding noise of the cancelling T-functions sets in only at the highest scales: below the failing
                 # rung a(M) M^2 is flat (a systematic non-decoupling would grow by ~10 per rung from the start)
-                item["ewadd_ok"] = envelope([r["parts.2LB.EWadd"] for r in rows], floors)[0] is None
+                # (EWadd is proportional to cos(beta-alpha): in exact alignment it is a rounding residue ~1e-16 of
+                # the other parts that "grows" like M^2; thorough tier, seed 3 - judged only above 1e-6 of the parts)
+                item["ewadd_ok"] = envelope([r["parts.2LB.EWadd"] for r in rows], [1e3 * f for f in floors])[0] is None
                 # rounding noise is erratic: moving the heavy scale by a relative 1e-7 changes it by O(1), whereas a
                 # systematic non-decoupling does not notice
                 near = []
@@ -168,6 +170,7 @@ def prop_b(case):
                 # on three points misread as systematic: quick tier, seed 0 of the sweep)
                 item["erratic"] = bool(spread > 1e-3 * max(abs(v) for v in vals3)) if all(v == v for v in vals3) else True
                 item["neighbours"] = vals3
+                item["noise_amplitude"] = max(abs(v) for v in vals3) if all(v == v for v in vals3) else float("inf")
             bad.append(item)
     if bad:
         return Fail("THDM contribution does not decouple with the heavy scale", problems=bad, tb=tb)
@@ -179,7 +182,9 @@ def known_match(entry, case, fail):
     if m.get("kind") == "bosonic-nonYuk-rounding":
         probs = fail.detail.get("problems", [])
         return bool(probs) and all(isinstance(q, dict) and q.get("component") == "amu2LB" and q.get("erratic")
-                                   and q.get("ewadd_ok") and q.get("rung", 0) >= m.get("min_rung", 2) for q in probs)
+                                   and q.get("ewadd_ok") and q.get("rung", 0) >= m.get("min_rung", 2)
+                                   and q.get("noise_amplitude", 0.0) <= m.get("max_amplitude", {}).get(str(q.get("rung")), math.inf)
+                                   for q in probs)
     return False
 
 
